@@ -25,9 +25,11 @@ MANIFEST = {
 		'carriage return), line length, `template <`, `catch` placement, the typo list (every translatable pattern of TypoChecker, '
 		'witness validated by vm_compute), consecutive blank lines, blank line before the last line (whitespace-only; the empty-line '
 		'case is a refuted statement), pragma-once / licence header, region pairing, unseed_restores, exit_nonzero (< 256 failures). '
-		'NO theorem (exercised only by seeded runs against the real linter): include order and first include, preprocessor '
-		'indentation (modelled by C20), namespace versus path, forward declarations, brace / return formatting, cross-component and '
-		'dependency rules, copyright hash, and every other validator of validation.py. Silence of the whole tree is an execution of '
+		'Dependency rules (Lint/Deps.v over the regenerated deps.config): define expansion = product of leaf names, closure soundness '
+		'(every compiled allow-pair is a path of declared rules; completeness half not proved), an include without a justifying path is '
+		'reported. NO theorem (exercised only by seeded runs against the real linter): include order and first include, preprocessor '
+		'indentation (modelled by C20), namespace versus path, forward declarations, brace / return formatting, cross-component '
+		'includes, copyright hash, and every other validator of validation.py. Silence of the whole tree is an execution of '
 		'the real linter, not a theorem.',
 	'design_ref': 'DESIGN.md section 4, C19',
 	'technique': 'Coq proof over regenerated model + vm_compute correspondence with the Python validators + seeded runs of the real linter',
@@ -271,6 +273,99 @@ def perturb_file(rng, lines):
 		else:
 			compact = compact[:rng.randrange(len(compact) + 1)]
 	return [line.replace('\n', '') for line in compact]
+
+
+# ---------------------------------------------------------------------------------------------------------------------
+# dependency rules (DepsChecker): correspondence
+
+DEPS_PRELUDE = '''From Symv Require Import Base.Bytes Lint.Regex Lint.Deps Lint.DepsProofs Base.PyOps Gen.LintPatterns Gen.LintDeps.
+Open Scope string_scope.
+Definition deps_fuel : nat := Z.to_nat (define_level_limit - define_level_start).
+Definition render_rules (o : option (list rule)) : string :=
+  match o with
+  | None => "error"
+  | Some rs => String.concat ";" (map (fun r => fst r ++ ">" ++ snd r) rs)
+  end.
+Definition compiled_now : list rule := match create_rules deps_fuel deps_defines deps_lines with Some c => c | None => [] end.
+Definition compiled_re_now : list (regex * regex) := Eval vm_compute in precompile deps_names compiled_now.
+Definition allowed_now (src dest : list Z) : bool := allowed_precompiled compiled_re_now src dest.
+Definition sources_now : string := String.concat ";" (nodup string_dec (map fst compiled_now)).
+Definition targets_of (s : string) : string := String.concat ";" (map snd (filter (fun r => String.eqb (fst r) s) compiled_now)).
+Definition L := of_string.
+'''
+
+
+def real_deps_checker(text=None):
+	"""DepsChecker over the shipped deps.config (text None) or over a given configuration text (parse + create_rules)."""
+	import io  # pylint: disable=import-outside-toplevel
+	from DepsChecker import DepsChecker  # pylint: disable=import-error,import-outside-toplevel
+	errors = []
+	if text is None:
+		return DepsChecker('deps.config', errors), errors
+	checker = DepsChecker.__new__(DepsChecker)
+	checker.config_path = 'deps.config'
+	checker.errors = errors
+	checker.verbose = False
+	checker.lines = []
+	checker.defines = {}
+	checker.rules = []
+	checker.parse(io.StringIO(text))
+	checker.create_rules()
+	return checker, errors
+
+
+def canonical_rules(pairs):
+	return ';'.join(sorted(set(f'{a}>{b}' for a, b in pairs)))
+
+
+def real_rules_outcome(text):
+	try:
+		checker, _ = real_deps_checker(text)
+	except RuntimeError as ex:
+		return 'error' if 'nesting level' in str(ex) or 'loop in rules' in str(ex) else f'crash:{ex}'
+	except Exception as ex:  # pylint: disable=broad-except
+		return f'crash:{type(ex).__name__}'
+	return canonical_rules((src.pattern[1:-1], dest.pattern[1:-1]) for src, dest in checker.rules)
+
+
+def coq_string(text):
+	assert all(32 <= ord(c) < 127 for c in text) and '"' not in text, text
+	return '"' + text + '"'
+
+
+def random_deps_config(rng):
+	names = ['a', 'b', 'c', 'd', 'e', 'f/g', 'h.*', 'K', 'M', 'N', 'P']
+	lines = []
+	for key in rng.sample(['K', 'M', 'N', 'P'], rng.randrange(0, 4)):
+		lines.append(f'{key} = ' + ' '.join(rng.sample(names, rng.randrange(1, 4))))
+	for _ in range(rng.randrange(1, 9)):
+		lines.append(f'{rng.choice(names)} -> {rng.choice(names)}' + rng.choice(['', '  # note', '']))
+	rng.shuffle(lines)
+	return '\n'.join(lines) + '\n'
+
+
+def model_rules_expr(text):
+	lines, defines, bad = gen19.parse_deps_text(text)
+	if bad:
+		return None
+	rules = '[' + '; '.join(f'({coq_string(a)}, {coq_string(b)})' for a, b in lines) + ']'
+	defs = '[' + '; '.join(f'({coq_string(k)}, [{"; ".join(coq_string(v) for v in vs)}])' for k, vs in defines) + ']'
+	return f'render_rules (create_rules deps_fuel {defs} {rules})'
+
+
+def dependency_pairs(files, contents_of):
+	"""(including directory, included directory) pairs exactly as check_dependencies derives them from the tree's includes."""
+	pairs = set()
+	for path in files:
+		if not re.match(r'src|extensions|plugins', path) or 'tests' in path:
+			continue
+		parts = os.path.dirname(path).split('/')
+		source = '/'.join(parts[1:] if parts[0] == 'src' else parts)
+		for match in re.finditer(r'^\s*#\s*include[ \t]*"([^">]*)"', contents_of(path), re.M):
+			directory = os.path.dirname(match.group(1))
+			if directory:
+				pairs.add((source, directory))
+	return sorted(pairs)
 
 
 # ---------------------------------------------------------------------------------------------------------------------
@@ -752,6 +847,56 @@ def run(check, unrecognised):  # pylint: disable=too-many-locals,too-many-branch
 		check.extra['correspondence'] = {
 			'line_cases': len(cases), 'line_cases_flagged_by_implementation': flagged, 'file_cases': len(file_cases),
 			'file_cases_flagged_by_implementation': sum(1 for out in file_outs if out), 'seconds': round(time.time() - start, 1)}
+
+
+		# ---- (b2) dependency rules: DepsChecker against Lint/Deps.v on the shipped deps.config, on the include pairs of the tree and on random configurations
+		start = time.time()
+		dep_files = [path for path in files if re.match(r'src|extensions|plugins', path) and 'tests' not in path]
+		pairs = dependency_pairs(dep_files, lambda path: contents[path] if path in contents else (CATAPULT / path).read_text(encoding='utf8'))
+		checker, _ = real_deps_checker()
+		sources = sorted({a for a, _ in pairs})
+		destinations = sorted({b for _, b in pairs})
+		chosen_pairs = set(pairs if not quick else rng.sample(pairs, min(len(pairs), 100)))
+		for _ in range(100 if quick else 1500):
+			chosen_pairs.add((rng.choice(sources), rng.choice(destinations)))
+		dep_cases = sorted(pair for pair in chosen_pairs if all(32 <= ord(c) < 127 and c != '"' for c in pair[0] + pair[1]))
+		dep_real = ['T' if checker.match('x.h', a, b, 'y.h') else 'F' for a, b in dep_cases]
+		config_texts = [random_deps_config(rng) for _ in range(120 if quick else 3000)]
+		config_cases = [(text, model_rules_expr(text)) for text in config_texts]
+		config_cases = [(text, expr) for text, expr in config_cases if expr is not None]
+		shipped = {}
+		for src, dest in checker.rules:
+			shipped.setdefault(src.pattern[1:-1], set()).add(dest.pattern[1:-1])
+		shipped_sources = sorted(shipped)
+		dep_models = coq_eval(
+			DEPS_PRELUDE,
+			['sources_now'] + [f'bool_to_string (allowed_now (L "{a}") (L "{b}"))' for a, b in dep_cases] + [expr for _, expr in config_cases]
+			+ [f'targets_of {coq_string(source)}' for source in shipped_sources],
+			'c19d', shard=20 if quick else 60, timeout=1500)
+		check.case('deps:shipped-config-sources', 'deps.config')
+		if sorted(set(dep_models[0].split(';'))) != shipped_sources:
+			check.disagree(
+				'Deps.create_rules-vs-DepsChecker(deps.config)', {'config': 'linters/cpp/deps.config', 'what': 'rule sources'},
+				shipped_sources[:20], sorted(set(dep_models[0].split(';')))[:20])
+		for source, mod in zip(shipped_sources, dep_models[1 + len(dep_cases) + len(config_cases):]):
+			check.case('deps:shipped-config-closure', source)
+			if sorted(set(mod.split(';'))) != sorted(shipped[source]):
+				check.disagree(
+					'Deps.create_rules-vs-DepsChecker(deps.config)', {'config': 'linters/cpp/deps.config', 'source': source},
+					sorted(shipped[source])[:20], sorted(set(mod.split(';')))[:20])
+		for (a, b), out, mod in zip(dep_cases, dep_real, dep_models[1:1 + len(dep_cases)]):
+			check.case('deps:match:' + ('allowed' if out == 'T' else 'reported'), (a, b))
+			if out != mod:
+				check.disagree('Deps.deps_allowed-vs-DepsChecker.match', {'src': a, 'dest': b}, out, mod)
+		for (text, _), mod in zip(config_cases, dep_models[1 + len(dep_cases):1 + len(dep_cases) + len(config_cases)]):
+			out = real_rules_outcome(text)
+			mod = mod if mod == 'error' else canonical_rules(tuple(item.split('>')) for item in mod.split(';') if item)
+			check.case('deps:config:' + ('error' if out == 'error' else 'rules'), text)
+			if out != mod:
+				check.disagree('Deps.create_rules-vs-DepsChecker(random config)', {'config': text}, out, mod)
+		check.extra['dependency_correspondence'] = {
+			'shipped_rules': len(checker.rules), 'include_pairs_in_tree': len(pairs), 'match_cases': len(dep_cases),
+			'match_cases_reported': dep_real.count('F'), 'random_configs': len(config_cases), 'seconds': round(time.time() - start, 1)}
 
 		# ---- (c) seeded violations
 		start = time.time()
